@@ -4535,9 +4535,16 @@ load_message (DBusMessageLoader *loader,
         {
           _dbus_verbose ("Failed to validate message body code %d\n", validity);
 
-          loader->corrupted = TRUE;
-          loader->corruption_reason = validity;
-          
+          /* as for the header above: running out of memory while
+           * validating is not a property of the data */
+          if (validity == DBUS_VALIDITY_UNKNOWN_OOM_ERROR)
+            oom = TRUE;
+          else
+            {
+              loader->corrupted = TRUE;
+              loader->corruption_reason = validity;
+            }
+
           goto failed;
         }
     }
